@@ -372,6 +372,26 @@ NEGATIVE = [
     let a = Bump::new(); let b = BBox::new_in(5u8, &a); let r = &*b; drop(b); touch(&r);"""),
     ("box_moved_while_mut_deref_alive", """
     let a = Bump::new(); let mut b = BBox::new_in(5u8, &a); let r = &mut *b; let c = b; touch(&r); touch(&c);"""),
+    # the by-value and draining iterators hand out &[T] through &self (as_slice): they may only be
+    # shared between threads when T may, and only be sent when T may
+    ("into_iter_of_cells_shared_between_threads", """
+    let a = Bump::new(); let v = bumpalo::vec![in &a; std::cell::Cell::new(1u64), std::cell::Cell::new(2u64)];
+    let it = v.into_iter(); let r = &it;
+    std::thread::scope(|s| { s.spawn(move || { touch(&r.as_slice()[0]); }); });"""),
+    ("drain_of_cells_shared_between_threads", """
+    let a = Bump::new(); let mut v = bumpalo::vec![in &a; std::cell::Cell::new(1u64), std::cell::Cell::new(2u64)];
+    let d = v.drain(..); let r = &d;
+    std::thread::scope(|s| { s.spawn(move || { touch(&r); }); });"""),
+    ("into_iter_of_rc_sent_to_thread", """
+    let a = Bump::new(); let v = bumpalo::vec![in &a; std::rc::Rc::new(1u64)];
+    let it = v.into_iter();
+    std::thread::scope(|s| { s.spawn(move || { touch(&it); }); });"""),
+    ("vec_of_cells_shared_between_threads", """
+    let a = Bump::new(); let v = bumpalo::vec![in &a; std::cell::Cell::new(1u64)]; let r = &v;
+    std::thread::scope(|s| { s.spawn(move || { touch(&r[0]); }); });"""),
+    ("box_of_cell_shared_between_threads", """
+    let a = Bump::new(); let b = BBox::new_in(std::cell::Cell::new(1u64), &a); let r = &b;
+    std::thread::scope(|s| { s.spawn(move || { touch(&**r); }); });"""),
     ("arena_moved_while_borrowed", """
     let a = Bump::new(); let x = a.alloc(1u8); let b = a; touch(&x); touch(&b);"""),
     ("arena_moved_into_box_while_borrowed", """
